@@ -16,33 +16,44 @@ type SchedStats struct {
 	Ties     int // visits whose canonical order had a tie (not replayable): harness trouble
 }
 
+// HookFor returns the verifrt hook implementing schedule s, counting into st.
+func HookFor(s Sched, st *SchedStats) func(site, n int) uint64 {
+	visit := uint64(0)
+	switch s.Mode {
+	case "", "identity":
+		return func(site, n int) uint64 { st.Visits++; return 0 }
+	case "reverse":
+		return func(site, n int) uint64 { st.Visits++; st.Reversed++; return 1 }
+	}
+	return func(site, n int) uint64 {
+		st.Visits++
+		visit++
+		h := rng.Derive(s.Seed, uint64(site), visit)
+		switch h % 3 {
+		case 0:
+			return 0
+		case 1:
+			st.Reversed++
+			return 1
+		}
+		st.Shuffled++
+		return h | 2
+	}
+}
+
+// SetHook installs h as the current map-order hook (nil = canonical order).
+// Used by the machine-interleaving scheduler when it hands over the token.
+func SetHook(h func(site, n int) uint64) { verifrt.Hook = h }
+
+// Ties returns the number of non-replayable canonical-order ties so far.
+func Ties() int { return verifrt.Ties }
+
 // InstallSched makes verifrt follow s until the returned function is called;
 // that function returns what happened. Exactly one machine may run at a time.
 func InstallSched(s Sched) func() SchedStats {
 	var st SchedStats
-	visit := uint64(0)
 	ties0 := verifrt.Ties
-	switch s.Mode {
-	case "", "identity":
-		verifrt.Hook = func(site, n int) uint64 { st.Visits++; return 0 }
-	case "reverse":
-		verifrt.Hook = func(site, n int) uint64 { st.Visits++; st.Reversed++; return 1 }
-	default: // seeded
-		verifrt.Hook = func(site, n int) uint64 {
-			st.Visits++
-			visit++
-			h := rng.Derive(s.Seed, uint64(site), visit)
-			switch h % 3 {
-			case 0:
-				return 0
-			case 1:
-				st.Reversed++
-				return 1
-			}
-			st.Shuffled++
-			return h | 2
-		}
-	}
+	verifrt.Hook = HookFor(s, &st)
 	return func() SchedStats {
 		verifrt.Hook = nil
 		st.Ties = verifrt.Ties - ties0
